@@ -28,6 +28,14 @@ def gen_datagrams(rng, n):
     for op in list(range(0, 64)) + [rng.randrange(65536) for _ in range(64)]:
         for tail in (b"", b"\0", b"a\0octet\0", b"\0\0\0\0", bytes([rng.randrange(256) for _ in range(rng.randrange(1, 8))])):
             out.append(("opcode-prefix", struct.pack(">H", op) + tail))
+    # every ERROR code around the defined range, block-number boundaries of DATA / ACK
+    for code in list(range(0, 20)) + [255, 256, 32768, 65535]:
+        out.append(("error-code", N.enc_error(code, b"x")))
+        out.append(("error-code", struct.pack(">HH", 5, code)))
+    for blk in (0, 1, 2, 255, 256, 32767, 32768, 65534, 65535):
+        out.append(("block-number", N.enc_ack(blk)))
+        out.append(("block-number", N.enc_data(blk, b"")))
+        out.append(("block-number", N.enc_data(blk, b"y" * 512)))
     # (iv) option boundary values, each option alone and combined
     uniq = 0
     for kind, name in ((N.RRQ, "probe.bin"), (N.WRQ, None)):
